@@ -78,6 +78,10 @@ func (lifecycleScn) Generate(g *simrt.Rng, tier string) any {
 		}
 	}
 	p.ShutUs = us()
+	if p.Shutdown != "halfclose-stalled" && g.Bool(0.35) {
+		// the connection outlives its channels: every channel end must reach the handler on its own
+		p.ShutUs = 5_000_000
+	}
 	return p
 }
 
@@ -103,6 +107,9 @@ type lcChanState struct {
 	endEvent   bool // the client has begun to end the channel (or the connection shutdown has begun)
 	handlers   int
 	ctxEarly   bool
+	freedAt    time.Duration // when the client's Free returned (0: not yet)
+	doneAt     time.Duration // when the handler returned
+	started    bool
 }
 
 type lcRun struct {
@@ -113,6 +120,7 @@ type lcRun struct {
 	ls         []*lcListenerState
 	cs         []*lcChanState
 	closeBegan int64 // step at which the shutdown was initiated (0: not yet)
+	closeBeganAt time.Duration
 	srvConnCtx mpx.ConnContext
 	srvConn    mpx.Conn
 	handlerInv int
@@ -196,6 +204,17 @@ func (lifecycleScn) Run(t *testing.T, seed uint64, plan any, o RunOpts) *Report 
 			rep.violate("C20-context-early", "channel %d: the handler's context was cancelled before anything had ended the channel or the connection", i)
 		}
 	}
+	for i, c := range r.cs {
+		// the client ended the channel well before the connection went away: the handler's context
+		// must have been cancelled by that alone (a handler that waits for it returns promptly)
+		if c.started && c.opened && c.freedAt > 0 && r.closeBeganAt > c.freedAt+2*time.Second {
+			if c.doneAt == 0 || c.doneAt > c.freedAt+2*time.Second {
+				rep.violate("C20-context-not-cancelled", "channel %d: the client freed the channel at %v, the connection stayed up until %v, but the handler (%s) was only released at %v: its context was not cancelled when the channel ended",
+					i, c.freedAt, r.closeBeganAt, p.Channels[i].Handler, c.doneAt)
+			}
+			rep.count("probe:channel_ends_checked_before_shutdown", 1)
+		}
+	}
 	if int64(r.handlerInv) != r.handlerObj {
 		rep.violate("C20-handler-not-invoked", "the server accepted %d opened channels (handler objects acquired) but invoked the handler %d times", r.handlerObj, r.handlerInv)
 	}
@@ -213,6 +232,7 @@ func (r *lcRun) markEnd() {
 		if r.closeBegan == 0 {
 			r.closeBegan = 1
 		}
+		r.closeBeganAt = simrt.Now()
 	}
 	for _, c := range r.cs {
 		c.endEvent = true
@@ -241,6 +261,8 @@ func (r *lcRun) handler(ctx mpx.Context, ch mpx.Channel) status.Status {
 	c := r.cs[h.ch]
 	pc := r.p.Channels[h.ch]
 	c.handlers++
+	c.started = true
+	defer func() { c.doneAt = max(simrt.Now(), 1) }()
 	if ctx.Done() && !c.endEvent {
 		c.ctxEarly = true
 	}
@@ -352,6 +374,7 @@ func (r *lcRun) main() {
 			hSleep(time.Duration(pc.ClientUs) * time.Microsecond)
 			c.endEvent = true
 			ch.Free()
+			c.freedAt = max(simrt.Now(), 1)
 		})
 	}
 	for i := range p.Listeners {
